@@ -14,6 +14,7 @@ func init() {
 		lean:    []string{"JSight.Props.C18"},
 		exes:    []string{},
 		run:     runC18,
+		assume:  []string{"the ban check of addDirective (catalog phase) is redundant after the keyword-time check and is not modelled", "file access before the ban is observed with a canary, not traced"},
 		rule:    "all 30 singleton ban sets and sampled larger ones x generated documents with and without the banned kinds (written directly, brought in by PASTE, in an included file); non-trivial = non-empty ban set and a document with >= 3 directive kinds; distinct = distinct (ban set, document)",
 		trusted: []string{"the harness-side renderer; 'no file read before the ban' is observed through a canary: the banned INCLUDE names a file that does not exist, so any read attempt changes the diagnostic"},
 	}
